@@ -60,6 +60,12 @@ S_W = {"name": "W", "residues": [["W", ["W"]]]}
 # ends where (number, name) changes, not where a name comes round again (seed C11-8)
 S_PEG = {"name": "PEG3", "residues": [["PEG", ["EO", "EO", "EO"]]]}
 S_DIOL = {"name": "DIOL", "residues": [["DOL", ["OH", "C1", "C2", "OH"]], ["DOL", ["OH", "C1", "C2", "OH"]]]}
+# residue names that start with a digit (PDB style 1MA, 2MG) and topology residue numbers with a gap kept from the
+# source structure: (1, "1MA") and (11, "MA") are two residues although "1"+"1MA" == "11"+"MA" (seed C11-10: residues
+# told apart by the concatenation resid+resname)
+S_NUC = {"name": "NUC", "residues": [["1MA", _names("N", 3)], ["MA", _names("P", 2)]], "resnrs": [1, 11]}
+S_NU2 = {"name": "NU2", "residues": [["5MC", _names("K", 2)], ["MC", _names("K", 2)], ["2MG", ["G1"]]],
+         "resnrs": [2, 25, 7]}
 
 EXH = [S_AAA, S_BBB, S_CCC, S_SOL]
 
@@ -97,8 +103,8 @@ def generate(ctx):
                "species": EXH, "blocks": [0, 0] + [1] * nrun + [2, 0], "load": [1, 0, 2],
                "ops": [["it"], ["g", 1030], ["g", -1], ["g", 1024], ["s", 1020, 1030, None], ["s", None, None, 257]]}
     # ---- random longer systems
-    table = [S_AAA, S_BBB, S_CCC, S_DDD, S_EEE, S_SOL, S_W, S_PEG, S_DIOL]
-    loadable = [0, 1, 2, 3, 4, 7, 8]
+    table = [S_AAA, S_BBB, S_CCC, S_DDD, S_EEE, S_SOL, S_W, S_PEG, S_DIOL, S_NUC, S_NU2]
+    loadable = [0, 1, 2, 3, 4, 7, 8, 9, 10]
     foreign = [["ION", ["NA"]], ["AAA", ["A1", "A2"]], ["CR", ["R1"]], ["XYZ", _names("Q", 5)], ["DB", ["E1"]]]
     for i in range(ctx.n(500, 12000)):
         nb = rng.randint(5, 40) if rng.random() < 0.7 else rng.randint(41, 120)
@@ -186,7 +192,7 @@ def _itp_for(ctx, sp):
     p = _itp_cache.get(key)
     if p is None or not os.path.exists(p):
         p = os.path.join(ctx.scratch, f"top-{key}.itp")
-        G.write_itp(p, sp["name"], sp["residues"])
+        G.write_itp(p, sp["name"], sp["residues"], sp.get("resnrs"))
         _itp_cache[key] = p
     return p
 
@@ -490,7 +496,8 @@ def evaluate(ctx, case):
     ttoks = [str(len(load))]
     for k in load:
         sp = species[k]
-        tatoms = [(nm, rn, ri + 1) for ri, (rn, ns) in enumerate(sp["residues"]) for nm in ns]
+        tatoms = [(nm, rn, sp["resnrs"][ri] if "resnrs" in sp else ri + 1)
+                  for ri, (rn, ns) in enumerate(sp["residues"]) for nm in ns]
         ttoks.append(f"{G.hexs(sp['name'])} {len(tatoms)} "
                      + " ".join(f"{G.hexs(nm)} {G.hexs(rn)} {rid}" for nm, rn, rid in tatoms))
     toks = f"{G.tok_records(recs)} {' '.join(ttoks)} {G.tok_ops(ops)}"
